@@ -5,14 +5,18 @@ here="$(cd "$(dirname "$0")" && pwd)"
 repo="${DAGRT_REPO:-/repo}"
 cd "$here"
 export PYTHONPATH="$repo:$here" PYTHONHASHSEED=0 PYTHONDONTWRITEBYTECODE=1
-/venv/bin/python -m harness.translate "$repo" > coq/Generated.v.new
-if ! cmp -s coq/Generated.v.new coq/Generated.v; then mv coq/Generated.v.new coq/Generated.v; else rm coq/Generated.v.new; fi
+/venv/bin/python - <<'PY'
+from harness import common
+errs = common.translate()
+for k, v in errs.items():
+    print("translator %s: %s" % (k, v))
+common.ensure_makefile()
+PY
 cd coq
-coq_makefile -f _CoqProject -o Makefile > /dev/null
-timeout 3000 make -j16 2>&1 | grep -v "^COQC\|^COQDEP\|^CLEAN" | tail -50
-test "${PIPESTATUS[0]}" = 0
+timeout 3000 make -k -j16 2>&1 | grep -v "^COQC\|^COQDEP\|^CLEAN\|^Closed under" | tail -50
+if [ "${PIPESTATUS[0]}" != 0 ]; then echo "WARNING: part of the Coq development did not build; the checks of the affected properties will report it"; fi
 # hygiene: nothing admitted or axiomatised in the development
-if grep -rnE '\b(Admitted|admit|Axiom|Parameter|Conjecture|Admit Obligations)\b|Unset Guard|bypass_check|type-in-type' --include='*.v' . | grep -v '^./cases/' | grep -v '(\*.*\*)'; then
+if grep -rnE '\b(Admitted|admit|Axiom|Parameter|Conjecture|Admit Obligations)\b|Unset Guard|bypass_check|type-in-type' --include='*.v' gen model proofs props | grep -v '(\*.*\*)'; then
   echo "forbidden construct in the Coq development" >&2; exit 1
 fi
 echo "setup ok"
